@@ -386,3 +386,6 @@ def run(ctx):
     r4(ctx)
     r5(ctx)
     r6(ctx)
+    # the declared field type and the type the attribute expansion derives agree on signedness (shared with C15)
+    from .c15 import r1 as signedness_of_extensible_integers
+    signedness_of_extensible_integers(ctx, rule="C09.R7")
